@@ -213,6 +213,8 @@ struct FileCtx<'a> {
     rule_counts: BTreeMap<String, usize>,
     errors: Vec<String>,
     warnings: Vec<String>,
+    degraded: Vec<String>,
+    extra_eff: HashMap<String, String>,
 }
 
 impl<'a> FileCtx<'a> {
@@ -257,6 +259,9 @@ struct BodyV<'a, 'b> {
     used_loops: HashSet<usize>,
     used_closures: HashSet<usize>,
     used_text_closures: HashSet<String>,
+    closure_ctx: Vec<String>,
+    closure_rewritten: bool,
+    closure_counts: HashMap<String, usize>,
 }
 
 fn path_key2(p: &Path) -> (Option<String>, String) {
@@ -434,43 +439,91 @@ impl<'a, 'b> BodyV<'a, 'b> {
 
     fn weave_closure(&mut self, c: &ExprClosure) {
         self.closure_no += 1;
-        let n = self.closure_no;
-        let mut spec = self.unit.as_ref().and_then(|u| u.closures.get(&n)).cloned();
-        if spec.is_some() {
-            self.used_closures.insert(n);
-        } else if let Some(u) = self.unit.as_ref() {
-            // text-anchored: the closure's source text (whitespace-normalised) starts with the key
-            let r = range_of(c);
-            let txt = self.fc.text(r).split_whitespace().collect::<Vec<_>>().join(" ");
+        // anchor: "<callee name>#<k>" = the k-th closure literal passed to a call of that name
+        // in this unit (source order); a closure that is not a call argument is "let#k"
+        let ctx = self.closure_ctx.last().cloned().unwrap_or_else(|| "let".to_string());
+        let cnt = self.closure_counts.entry(ctx.clone()).or_insert(0);
+        *cnt += 1;
+        let key = format!("{}#{}", ctx, *cnt);
+        let mut spec = None;
+        if let Some(u) = self.unit.as_ref() {
             for (k, v) in &u.closures_by_text {
-                if txt.starts_with(k.as_str()) && !self.used_text_closures.contains(k) {
+                if *k == key {
                     spec = Some(v.clone());
-                    self.used_text_closures.insert(k.clone());
-                    break;
                 }
             }
         }
         if let Some(spec) = spec {
-            // replace `|params|` (+ optional `-> T`) by the overlay's signature text
+            self.used_text_closures.insert(key.clone());
+            let types: Vec<String> = spec.get("types").and_then(|x| x.as_array()).map(|a| a.iter().map(|x| x.as_str().unwrap_or("").to_string()).collect()).unwrap_or_default();
+            if types.len() != c.inputs.len() {
+                self.fc.degraded.push(format!("unit {}: closure {key} has {} parameters, the contract expects {}", self.outer_name, c.inputs.len(), types.len()));
+                return;
+            }
+            // parameter names come from the source; `$k` in the contract is the k-th parameter
+            let mut names: Vec<String> = vec![];
+            let mut params: Vec<String> = vec![];
+            for (i, p) in c.inputs.iter().enumerate() {
+                let pat = match p {
+                    Pat::Type(pt) => &*pt.pat,
+                    other => other,
+                };
+                let name = match pat {
+                    Pat::Ident(pi) => pi.ident.to_string(),
+                    Pat::Wild(_) => format!("_w{i}"),
+                    _ => {
+                        self.fc.degraded.push(format!("unit {}: closure {key}: parameter {} is a pattern, not a name", self.outer_name, i + 1));
+                        return;
+                    }
+                };
+                let mutab = match pat { Pat::Ident(pi) if pi.mutability.is_some() => "mut ", _ => "" };
+                params.push(format!("{mutab}{name}: {}", types[i]));
+                names.push(name);
+            }
+            let ret = jstr(&spec, "ret");
+            let mut contract = jstr(&spec, "contract");
+            for (i, n) in names.iter().enumerate().rev() {
+                contract = contract.replace(&format!("${}", i + 1), n);
+            }
             let (a, _) = br(c.or1_token.span());
             let mut end = br(c.or2_token.span()).1;
             if let ReturnType::Type(_, t) = &c.output {
                 end = range_of(&**t).1;
             }
-            let sig = jstr(&spec, "sig");
-            let contract = jstr(&spec, "contract");
-            let mut txt = sig;
+            let mut txt = format!("|{}|", params.join(", "));
+            if !ret.is_empty() {
+                txt.push_str(&format!(" -> ({ret})"));
+            }
             if !contract.is_empty() {
                 txt.push_str("\n");
                 txt.push_str(&contract);
                 txt.push_str("\n");
             }
             self.fc.edit(a, end, txt, "R7.closure");
+            self.closure_rewritten = true;
             // body must be a block once a return type is written
             if !matches!(&*c.body, Expr::Block(_)) {
                 let r = range_of(&*c.body);
                 self.fc.edit_ord(r.0, r.0, "{ ", "R7.closure.brace", -9);
                 self.fc.edit_ord(r.1, r.1, " }", "R7.closure.brace", 9);
+            }
+        }
+    }
+
+    fn visit_call_parts(&mut self, e: &ExprCall) {
+        self.visit_expr(&e.func);
+        let name = match &*e.func {
+            Expr::Path(ep) => ep.path.segments.last().map(|s| s.ident.to_string()).unwrap_or_default(),
+            _ => String::new(),
+        };
+        for a in e.args.iter() {
+            let is_closure = matches!(a, Expr::Closure(_));
+            if is_closure {
+                self.closure_ctx.push(name.clone());
+            }
+            self.visit_expr(a);
+            if is_closure {
+                self.closure_ctx.pop();
             }
         }
     }
@@ -624,7 +677,7 @@ impl<'a, 'b, 'ast> Visit<'ast> for BodyV<'a, 'b> {
             let mode = k2
                 .as_ref()
                 .and_then(|k| self.fc.cfg.eff_path.get(k))
-                .or_else(|| if k2.is_none() { self.fc.cfg.eff_path.get(&k1) } else { self.fc.cfg.eff_path.get(&format!("*::{k1}")) })
+                .or_else(|| if k2.is_none() { self.fc.extra_eff.get(&k1).or_else(|| self.fc.cfg.eff_path.get(&k1)) } else { self.fc.cfg.eff_path.get(&format!("*::{k1}")) })
                 .cloned();
             // nested fn call rename (hoisted inner functions)
             if k2.is_none() {
@@ -638,7 +691,7 @@ impl<'a, 'b, 'ast> Visit<'ast> for BodyV<'a, 'b> {
                         let m = nu.world.clone();
                         self.add_world_arg(e.paren_token.span.close(), !e.args.is_empty(), e.args.trailing_punct(), &m, &k1);
                     }
-                    visit::visit_expr_call(self, e);
+                    self.visit_call_parts(e);
                     return;
                 }
             }
@@ -649,7 +702,7 @@ impl<'a, 'b, 'ast> Visit<'ast> for BodyV<'a, 'b> {
                 }
             }
         }
-        visit::visit_expr_call(self, e);
+        self.visit_call_parts(e);
     }
 
     fn visit_expr_method_call(&mut self, e: &'ast ExprMethodCall) {
@@ -690,7 +743,14 @@ impl<'a, 'b, 'ast> Visit<'ast> for BodyV<'a, 'b> {
             self.in_opaque_ctx += 1;
         }
         for a in e.args.iter() {
+            let is_closure = matches!(a, Expr::Closure(_));
+            if is_closure {
+                self.closure_ctx.push(name.clone());
+            }
             self.visit_expr(a);
+            if is_closure {
+                self.closure_ctx.pop();
+            }
         }
         if opaque {
             self.in_opaque_ctx -= 1;
@@ -698,19 +758,25 @@ impl<'a, 'b, 'ast> Visit<'ast> for BodyV<'a, 'b> {
     }
 
     fn visit_expr_closure(&mut self, c: &'ast ExprClosure) {
-        // R18: Verus rejects `_` as a closure parameter; give it a name
-        for (i, p) in c.inputs.iter().enumerate() {
-            if let Pat::Wild(wp) = p {
-                let r = br(wp.underscore_token.span());
-                self.fc.edit(r.0, r.1, format!("_w{i}"), "R18.closure_wild");
+        self.closure_rewritten = false;
+        self.weave_closure(c);
+        if !self.closure_rewritten {
+            // R18: Verus rejects `_` as a closure parameter; give it a name
+            for (i, p) in c.inputs.iter().enumerate() {
+                if let Pat::Wild(wp) = p {
+                    let r = br(wp.underscore_token.span());
+                    self.fc.edit(r.0, r.1, format!("_w{i}"), "R18.closure_wild");
+                }
             }
         }
-        self.weave_closure(c);
+        // closures nested in this closure's body are not arguments of the enclosing call
+        let saved_ctx = std::mem::take(&mut self.closure_ctx);
         // visit params' types and the body
         for p in c.inputs.iter() {
             self.visit_pat(p);
         }
         self.visit_expr(&c.body);
+        self.closure_ctx = saved_ctx;
     }
 
     fn visit_expr_loop(&mut self, e: &'ast ExprLoop) {
@@ -1133,6 +1199,9 @@ fn process_fn(
         used_loops: HashSet::new(),
         used_closures: HashSet::new(),
                         used_text_closures: HashSet::new(),
+                        closure_ctx: Vec::new(),
+                        closure_rewritten: false,
+                        closure_counts: HashMap::new(),
     };
     for inp in sig.inputs.iter() {
         match inp {
@@ -1203,7 +1272,7 @@ fn process_fn(
     let uc: Vec<usize> = u.closures.keys().filter(|k| !bv.used_closures.contains(k)).cloned().collect();
     for k in ul {
         if !u.drop_body {
-            bv.fc.errors.push(format!("unit {}: contract names loop #{k} but the function has no such loop (anchor lost)", u.id));
+            bv.fc.degraded.push(format!("unit {}: contract names loop #{k} but the function has no such loop (annotation dropped)", u.id));
         }
     }
     for k in uc {
@@ -1214,13 +1283,75 @@ fn process_fn(
     let ut: Vec<String> = u.closures_by_text.iter().map(|(k, _)| k.clone()).filter(|k| !bv.used_text_closures.contains(k)).collect();
     for k in ut {
         if !u.drop_body {
-            bv.fc.errors.push(format!("unit {}: contract names a closure starting with `{k}` but the function has none (anchor lost)", u.id));
+            bv.fc.degraded.push(format!("unit {}: contract names closure `{k}` but the function has none (annotation dropped)", u.id));
         }
     }
     for h in &u.hints {
         let anchor = jstr(h, "anchor");
         if !u.drop_body && !bv.fc.rule_counts.contains_key(&format!("hint:{}", anchor)) {
-            bv.fc.errors.push(format!("unit {}: hint anchor `{}` not found (anchor lost)", u.id, anchor));
+            bv.fc.degraded.push(format!("unit {}: hint anchor `{}` not found (annotation dropped)", u.id, anchor));
+        }
+    }
+}
+
+/// identifiers used as single-segment paths (calls, values, types) inside a token tree
+fn collect_idents(ts: TokenStream, out: &mut HashSet<String>) {
+    for tt in ts {
+        match tt {
+            TokenTree::Ident(i) => {
+                out.insert(i.to_string());
+            }
+            TokenTree::Group(g) => collect_idents(g.stream(), out),
+            _ => {}
+        }
+    }
+}
+
+/// world mode a function body needs, judged by the effectful calls it contains
+struct EffScan<'c> {
+    cfg: &'c Cfg,
+    auto_modes: &'c HashMap<String, String>,
+    mode: u8, // 0 none, 1 ro, 2 mut
+}
+impl<'c> EffScan<'c> {
+    fn bump(&mut self, m: &str) {
+        let v = match m.split('/').next().unwrap_or("") { "mut" => 2, "ro" => 1, _ => 0 };
+        if v > self.mode {
+            self.mode = v;
+        }
+    }
+}
+impl<'c, 'ast> Visit<'ast> for EffScan<'c> {
+    fn visit_expr_call(&mut self, e: &'ast ExprCall) {
+        if let Expr::Path(ep) = &*e.func {
+            let (k2, k1) = path_key2(&ep.path);
+            if let Some(m) = k2.as_ref().and_then(|k| self.cfg.eff_path.get(k)) {
+                let m = m.clone();
+                self.bump(&m);
+            } else if k2.is_none() {
+                if let Some(m) = self.auto_modes.get(&k1).or_else(|| self.cfg.eff_path.get(&k1)) {
+                    let m = m.clone();
+                    self.bump(&m);
+                }
+            }
+        }
+        visit::visit_expr_call(self, e);
+    }
+    fn visit_expr_method_call(&mut self, e: &'ast ExprMethodCall) {
+        if let Some(m) = self.cfg.eff_method.get(&format!(".{}", e.method)) {
+            let lit_skip = m.ends_with("/nonlit") && matches!(e.args.first(), Some(Expr::Lit(_)));
+            if !lit_skip {
+                let m = m.clone();
+                self.bump(&m);
+            }
+        }
+        visit::visit_expr_method_call(self, e);
+    }
+    fn visit_macro(&mut self, m: &'ast Macro) {
+        if let Ok(args) = m.parse_body_with(Punctuated::<Expr, Token![,]>::parse_terminated) {
+            for a in args.iter() {
+                self.visit_expr(a);
+            }
         }
     }
 }
@@ -1335,6 +1466,104 @@ fn main() {
             let at = jstr(uv, "at");
             units.insert(at, unit_from(uv));
         }
+        // ---- auto-include: same-file helper fns / consts / statics that a unit refers to but
+        // the contracts do not list (e.g. introduced by a later change).  They are extracted
+        // WITHOUT a contract: callers see no postcondition for them.
+        let mut auto_names: Vec<String> = vec![];
+        let mut auto_items: Vec<String> = vec![];
+        let mut extra_eff: HashMap<String, String> = HashMap::new();
+        {
+            let mut top_fns: HashMap<String, &ItemFn> = HashMap::new();
+            let mut top_vals: HashSet<String> = HashSet::new();
+            for item in &file.items {
+                match item {
+                    Item::Fn(f) => {
+                        if cfg.env.attrs_on(&f.attrs).unwrap_or(false) {
+                            top_fns.insert(f.sig.ident.to_string(), f);
+                        }
+                    }
+                    Item::Const(c) => {
+                        if cfg.env.attrs_on(&c.attrs).unwrap_or(false) {
+                            top_vals.insert(c.ident.to_string());
+                        }
+                    }
+                    Item::Static(c) => {
+                        if cfg.env.attrs_on(&c.attrs).unwrap_or(false) {
+                            top_vals.insert(c.ident.to_string());
+                        }
+                    }
+                    _ => {}
+                }
+            }
+            // identifiers referenced from the listed units
+            let mut seen: HashSet<String> = HashSet::new();
+            for item in &file.items {
+                match item {
+                    Item::Fn(f) => {
+                        if units.contains_key(&format!("fn:{}", f.sig.ident)) {
+                            collect_idents(f.to_token_stream(), &mut seen);
+                        }
+                    }
+                    Item::Impl(im) => {
+                        let key = impl_key(im);
+                        for ii in &im.items {
+                            if let ImplItem::Fn(m) = ii {
+                                if units.contains_key(&format!("impl:{}/{}", key, m.sig.ident)) {
+                                    collect_idents(m.to_token_stream(), &mut seen);
+                                }
+                            }
+                        }
+                    }
+                    _ => {}
+                }
+            }
+            let mut work: Vec<String> = seen.iter().cloned().collect();
+            let mut done: HashSet<String> = HashSet::new();
+            while let Some(n) = work.pop() {
+                if !done.insert(n.clone()) {
+                    continue;
+                }
+                if let Some(f) = top_fns.get(&n) {
+                    if !units.contains_key(&format!("fn:{n}")) {
+                        auto_names.push(n.clone());
+                        let mut more = HashSet::new();
+                        collect_idents(f.to_token_stream(), &mut more);
+                        work.extend(more.into_iter());
+                    }
+                } else if top_vals.contains(&n) && !keep_items.contains(&n) {
+                    auto_items.push(n.clone());
+                }
+            }
+            // world modes of the auto helpers (fixpoint over their mutual calls)
+            let mut modes: HashMap<String, String> = auto_names.iter().map(|n| (n.clone(), "none".to_string())).collect();
+            loop {
+                let mut changed = false;
+                for n in &auto_names {
+                    let f = top_fns[n];
+                    let mut sc = EffScan { cfg: &cfg, auto_modes: &modes, mode: 0 };
+                    sc.visit_block(&f.block);
+                    let m = match sc.mode { 2 => "mut", 1 => "ro", _ => "none" };
+                    if modes[n] != m {
+                        modes.insert(n.clone(), m.to_string());
+                        changed = true;
+                    }
+                }
+                if !changed {
+                    break;
+                }
+            }
+            for n in &auto_names {
+                let mut u = UnitCfg::default();
+                u.id = format!("auto:{}:{}", fname, n);
+                u.world = modes[n].clone();
+                extra_eff.insert(n.clone(), modes[n].clone());
+                units.insert(format!("fn:{n}"), u);
+            }
+        }
+        let mut keep_items = keep_items;
+        for n in &auto_items {
+            keep_items.insert(n.clone());
+        }
         let item_extra: HashMap<String, String> = fcfg
             .get("item_extra")
             .and_then(|x| x.as_object())
@@ -1356,7 +1585,7 @@ fn main() {
                 }
             }
         }
-        let mut fc = FileCtx { cfg: &cfg, src: &src, edits: vec![], rule_counts: BTreeMap::new(), errors: vec![], warnings: vec![] };
+        let mut fc = FileCtx { cfg: &cfg, src: &src, edits: vec![], rule_counts: BTreeMap::new(), errors: vec![], warnings: vec![], degraded: vec![], extra_eff: extra_eff.clone() };
         // segments to keep: (start, end, kind, name)
         let mut segs: Vec<(usize, usize, String, String)> = vec![];
         let mut found_units: HashSet<String> = HashSet::new();
@@ -1369,6 +1598,7 @@ fn main() {
                 Item::Struct(i) => (&i.attrs, i.ident.to_string()),
                 Item::Enum(i) => (&i.attrs, i.ident.to_string()),
                 Item::Const(i) => (&i.attrs, i.ident.to_string()),
+                Item::Static(i) => (&i.attrs, i.ident.to_string()),
                 Item::Type(i) => (&i.attrs, i.ident.to_string()),
                 Item::Trait(i) => (&i.attrs, i.ident.to_string()),
                 Item::Fn(i) => (&i.attrs, i.sig.ident.to_string()),
@@ -1413,7 +1643,7 @@ fn main() {
                     // visibility -> keep as is
                     segs.push((r.0, r.1, "use".into(), txt.lines().next().unwrap_or("").to_string()));
                 }
-                Item::Struct(_) | Item::Enum(_) | Item::Const(_) | Item::Type(_) => {
+                Item::Struct(_) | Item::Enum(_) | Item::Const(_) | Item::Type(_) | Item::Static(_) => {
                     if !keep_items.contains(&name) {
                         dropped.push(format!("item {name}"));
                         continue;
@@ -1439,11 +1669,15 @@ fn main() {
                         used_loops: HashSet::new(),
                         used_closures: HashSet::new(),
                         used_text_closures: HashSet::new(),
+                        closure_ctx: Vec::new(),
+                        closure_rewritten: false,
+                        closure_counts: HashMap::new(),
                     };
                     match item {
                         Item::Struct(s) => make_pub(bv.fc, &s.vis, br(s.struct_token.span()).0),
                         Item::Enum(e) => make_pub(bv.fc, &e.vis, br(e.enum_token.span()).0),
                         Item::Const(c) => make_pub(bv.fc, &c.vis, br(c.const_token.span()).0),
+                        Item::Static(c) => make_pub(bv.fc, &c.vis, br(c.static_token.span()).0),
                         Item::Type(t) => make_pub(bv.fc, &t.vis, br(t.type_token.span()).0),
                         _ => {}
                     }
@@ -1484,6 +1718,10 @@ fn main() {
                         }
                         Item::Type(t) => {
                             bv.visit_type(&t.ty);
+                        }
+                        Item::Static(c) => {
+                            bv.visit_type(&c.ty);
+                            bv.visit_expr(&c.expr);
                         }
                         _ => {}
                     }
@@ -1603,6 +1841,9 @@ fn main() {
                             used_loops: HashSet::new(),
                             used_closures: HashSet::new(),
                         used_text_closures: HashSet::new(),
+                        closure_ctx: Vec::new(),
+                        closure_rewritten: false,
+                        closure_counts: HashMap::new(),
                         };
                         bv.visit_type(&im.self_ty);
                         if !inherent {
@@ -1679,7 +1920,8 @@ fn main() {
         all_errors.extend(errs);
         out_files.insert(
             fname.clone(),
-            json!({ "segments": rendered, "dropped": dropped, "warnings": fc.warnings }),
+            json!({ "segments": rendered, "dropped": dropped, "warnings": fc.warnings, "degraded": fc.degraded,
+                    "auto_units": auto_names, "auto_items": auto_items }),
         );
     }
     let out = json!({ "files": out_files, "errors": all_errors, "rule_counts": total_rules });
